@@ -23,4 +23,6 @@ package utils
 //@ func CloseAndLog
 //@   property C09
 //@   effect $AccOpen := false
+//@   havoc $StreamEnded
 //@   ensures !$AccOpen
+//@   ensures old($StreamEnded) ==> $StreamEnded
